@@ -27,7 +27,8 @@ CFG = {'assumptions': ['f64 inputs cross the boundary as bit patterns and are de
  'trusted_base': ['modelled as parameters, not verified: earcutr::earcut, spade (constrained) Delaunay triangulation '
                   'including geo\'s constraint-line preprocessing (snap/dedupe/split, the identity on valid integer '
                   'polygons), the monotone sweep builder (monotone/{builder,sweep,segment}.rs), ring reconstruction '
-                  'after find_boundary_lines in stitch.rs; their outputs are decided per case by the exact checker '
+                  'and ring nesting after find_boundary_lines in stitch.rs (observed only as the set of undirected '
+                  'edges of the output rings, which must equal the model\'s boundary lines); their outputs are decided per case by the exact checker '
                   'Tiling.tiles (vertex rule, exact area sum, relateSpec II = F pairwise, locate-sampled containment '
                   '+ no proper edge crossing)',
                   'the checker\'s containment clause samples each piece (vertices, 1/3, 1/2, 2/3 points of every edge, '
